@@ -40,7 +40,9 @@ Sym3(F(_, _, _)) == [l \in Li |-> [i \in Ti |-> [j \in Ti |-> F(l, i, j)]]]
 Instance(seed) ==
     [seed |-> seed,
      Hk  |-> Sym3(LAMBDA l, i, j : <<Gen(seed, 1, l, i, j, 7) - 3, 1>>),
-     Ck  |-> Sym3(LAMBDA l, i, j : RNorm(Gen(seed, 2, l, i, j, 7) - 3, 4)),        \* multiples of 1/4
+     \* multiples of 1/4; seeds >= 100: multiples of 1/64 (weak direct correlations, so that 1 + C S C stays positive and the
+     \* Percus-Yevick form of the solvation potential, -kT ln(1 + C S C), is defined at every wavenumber)
+     Ck  |-> Sym3(LAMBDA l, i, j : RNorm(Gen(seed, 2, l, i, j, 7) - 3, IF seed >= 100 THEN 64 ELSE 4)),
      Wk  |-> Sym3(LAMBDA l, i, j : <<IF i = j THEN 1 + Gen(seed, 3, l, i, j, 3) ELSE Gen(seed, 4, l, i, j, 2), 1>>),
      Hr  |-> Sym3(LAMBDA l, i, j : <<Gen(seed, 5, l, i, j, 4), 1>>),             \* h >= 0, so g = h + 1 > 0
      rho |-> [i \in Ti |-> <<1 + Gen(seed, 6, 1, i, i, 3), 1>>],
